@@ -418,9 +418,31 @@ pub fn run_close(ctx: &mut Ctx, scn: &StoreScn) {
     }
     // (3) every worker exits without the clock having to reach its next timer
     let max_lat = scn_latency_bound(ctx);
-    let before_join = ctx.sim.now_ns();
+    // give every worker the slack the property allows (disk latency of calls still in flight);
+    // a worker that is still alive then is waiting for a timer or will never exit
+    {
+        let calls_total: u64 = fsim::with_fs(ctx.sim, |fs| fs.log.len() as u64);
+        let slack = max_lat.saturating_mul(calls_total.min(10_000)) + 1_000_000;
+        let limit = ctx.sim.now_ns() + slack;
+        ctx.sim.wait_quiescent(ctx.me, limit);
+        let stuck: Vec<usize> = bg_threads(ctx).into_iter().filter(|t| !ctx.sim.thread_finished(*t)).collect();
+        if !stuck.is_empty() {
+            // would it exit once its next timer fires? give it two of its longest intervals
+            let mut iv_ms = scn.cfg.check_interval_ms * 2;
+            if let SyncCfg::IntervalMs(d) = scn.cfg.sync {
+                iv_ms = iv_ms.max(d);
+            }
+            let span = 2 * iv_ms * 1_000_000 + 1_000_000_000;
+            let limit2 = ctx.sim.now_ns() + span;
+            ctx.sim.wait_quiescent(ctx.me, limit2);
+            let still: Vec<usize> = bg_threads(ctx).into_iter().filter(|t| !ctx.sim.thread_finished(*t)).collect();
+            if !still.is_empty() {
+                ctx.viol("worker-never-exited", format!("{} background worker thread(s) of dropped stores are still alive {} simulated seconds after the last drop (more than two of their longest timer intervals)", still.len(), span / 1_000_000_000), "");
+                ctx.abandon();
+            }
+        }
+    }
     ctx.join_others();
-    let _ = before_join;
     for (t_drop, seq_drop, alive) in &drop_info {
         for tid in alive {
             match ctx.sim.thread_finished_at(*tid) {
